@@ -1,80 +1,870 @@
-"""Floats (reals with IEEE-754 error bounds), math, time, datetime models.  Filled in for C14."""
+"""Floats (reals with IEEE-754 error bounds), math, time, datetime models.  Filled in for C14.
+
+Trusted model (recorded in ctx.trusted when used):
+
+* float: a binary64 value is modelled by the real number it denotes (SReal).  Concrete operands are
+  computed by CPython itself (exact IEEE semantics).  A symbolic arithmetic result with exact value e
+  is a fresh real r constrained by facts that hold for round-to-nearest in binary64:
+      |r - e| <= 2^-53 |e| + 2^-1075                       (relative bound; the absolute term covers underflow)
+      |e| <= 2^k  ==>  |r - e| <= 2^(k-54)                 (half an ulp of the binade below 2^k; instantiated for the
+                                                            binades just below a syntactically known bound of |e|,
+                                                            or for k = -8..62 if no bound is known)
+      e >= 0 ==> r >= 0,  e <= 0 ==> r <= 0
+  and rounding is a function (equal exact values give equal results).
+  Overflow is excluded by a checked side condition (|e| < 2^1000 must be provable, else the obligation is
+  undecided).  NaN, infinities and the sign of zero are not modelled.  int -> float conversion is exact
+  for |v| <= 2^53 (checked), rounded otherwise; int / int is the correctly rounded exact quotient;
+  comparisons, unary minus, abs, math.floor / math.ceil / int() are exact on the real value; round(x)
+  is round-half-even.  This over-approximates binary64: a proof in the model is a proof for the real
+  floats (under the no-overflow side condition); a counter-model may be spurious and is decided by
+  native replay.
+* datetime: datetime.datetime / datetime.timedelta values are exact integers of microseconds
+  (datetime: since 1970-01-01T00:00 of its own clock, with tzinfo None or datetime.timezone.utc;
+  other time zones are unsupported).  Arithmetic and comparisons are integer arithmetic with the
+  documented range checks (OverflowError).  Conversions from a float number of seconds
+  (timedelta(seconds=x), fromtimestamp(x, tz=utc)) follow CPython: the integral part is taken exactly,
+  the fractional part is multiplied by 10^6 in binary64 and rounded to the nearest integer (ties:
+  either neighbour is admitted by the model).  timestamp() / total_seconds() are the correctly rounded
+  quotient microseconds / 10^6.
+"""
 from __future__ import annotations
+import ast
+import datetime as _dt
+import math as _math
+from fractions import Fraction
+import z3
 from .values import *  # noqa
 from .values import NOT_IMPLEMENTED
-from .explore import Unsupported
+from . import ops
+from .ops import as_int, is_intlike, zi
+from .explore import Unsupported, PathInfeasible
+
+T_FLOAT = ("floats: binary64 modelled as reals; every symbolic arithmetic result r of exact value e satisfies |r-e| <= 2^-53|e| + 2^-1075, "
+           "|r-e| <= 2^(k-54) if |e| <= 2^k, sign preserved, rounding is a function; overflow excluded by a "
+           "checked side condition; NaN/inf/-0.0 not modelled; int->float exact up to 2^53 (checked); comparisons, floor, ceil, int() exact on the real value")
+T_DT = ("datetime: datetime/timedelta are exact integer microseconds (tzinfo None or timezone.utc only); float seconds -> microseconds as in "
+        "CPython (integral part exact, fractional part * 10^6 in binary64, rounded to nearest, ties unspecified); timestamp()/total_seconds() "
+        "= correctly rounded microseconds / 10^6; range checks raise OverflowError")
+
+RN64 = z3.Function("rn64", z3.RealSort(), z3.RealSort())      # round to nearest binary64
+RINT = z3.Function("rint", z3.RealSort(), z3.IntSort())        # round to a nearest integer
+U53 = z3.Q(1, 2 ** 53)
+TINY = z3.Q(1, 2 ** 1075)
+LADDER = list(range(-8, 63))  # used only when no bound on the operand is known syntactically
 
 
-def _conc(v):
-    """concrete Python number of a concrete value (bool/int/float), else None"""
-    if isinstance(v, bool):
-        return int(v)
-    if isinstance(v, (int, float)):
-        return v
-    if isinstance(v, EnumV) and v.cls.is_intenum and isinstance(v.v, int):
-        return v.v
+def _b(name):
+    def deco(fn):
+        return Builtin(name, lambda interp, args, kwargs: fn(interp, *args, **kwargs))
+    return deco
+
+
+# ------------------------------------------------------------------------------------------------
+# reals
+# ------------------------------------------------------------------------------------------------
+
+def rv(x):
+    """exact z3 numeral of a concrete int / float"""
+    if isinstance(x, bool):
+        x = int(x)
+    if isinstance(x, int):
+        return z3.RealVal(x)
+    if _math.isnan(x) or _math.isinf(x):
+        raise Unsupported("NaN / infinity")
+    f = Fraction(x)
+    return z3.Q(f.numerator, f.denominator)
+
+
+def is_num(v):
+    return isinstance(v, (float, SReal)) or is_intlike(v)
+
+
+def is_concrete_num(v):
+    return isinstance(v, (int, float)) and not isinstance(v, (SInt, SReal))
+
+
+def numeral_value(t):
+    """Fraction of a z3 rational numeral term, else None"""
+    t = z3.simplify(t)
+    if z3.is_rational_value(t):
+        return Fraction(t.numerator_as_long(), t.denominator_as_long())
+    if z3.is_int_value(t):
+        return Fraction(t.as_long())
     return None
 
 
-def real_binop(interp, t, a, b):
-    import ast
-    x, y = _conc(a), _conc(b)
-    if x is not None and y is not None:
-        # concrete operands: CPython's own float arithmetic is the semantics
+def _abs(e):
+    return z3.If(e >= 0, e, -e)
+
+
+def _pow2_q(k):
+    return z3.Q(2 ** k, 1) if k >= 0 else z3.Q(1, 2 ** -k)
+
+
+def _bits_for(bound):
+    """smallest k with bound <= 2^k (bound: Fraction >= 0)"""
+    k = 0
+    while Fraction(2) ** k < bound:
+        k += 1
+    while k > -1080 and Fraction(2) ** (k - 1) >= bound:
+        k -= 1
+    return k
+
+
+def get_bound(interp, t):
+    """known bound B (Fraction) with |t| <= B for a real term, or None"""
+    q = numeral_value(t)
+    if q is not None:
+        return abs(q)
+    return interp.ctx.ghost.get(("rbound", t.get_id()))
+
+
+def set_bound(interp, t, b):
+    if b is not None:
+        interp.ctx.ghost[("rbound", t.get_id())] = b
+        interp.ctx.ghost[("rbound-keep", t.get_id())] = t
+
+
+def rnd(interp, e, bound=None):
+    """the binary64 value nearest to the exact real e, as a z3 real term; bound: known B >= |e| (Fraction) or None"""
+    ctx = interp.ctx
+    e = z3.simplify(e)
+    q = numeral_value(e)
+    if q is not None:
         try:
-            if t is ast.Div:
-                return x / y
-            if t is ast.Add:
-                return x + y
-            if t is ast.Sub:
-                return x - y
-            if t is ast.Mult:
-                return x * y
-            if t is ast.FloorDiv:
-                return x // y
-            if t is ast.Mod:
-                return x % y
-            if t is ast.Pow:
-                return x ** y
+            return rv(q.numerator / q.denominator)  # int / int: correctly rounded
+        except OverflowError:
+            raise Unsupported("float overflow")
+    ctx.trusted.add(T_FLOAT)
+    ae = _abs(e)
+    if bound is None:
+        bound = get_bound(interp, e)
+    if bound is None or bound >= 2 ** 1000:
+        if not ctx.valid(ae < z3.RealVal(2 ** 1000)):
+            raise Unsupported("float overflow not excluded")
+    # rounding is a function: equal exact values give equal results
+    key = ("rn64", e.get_id())
+    if key in ctx.ghost:
+        return ctx.ghost[key][0]
+    r = RN64(e)
+    ctx.ghost[key] = (r, e)
+    d = r - e
+    cons = [d <= U53 * ae + TINY, -d <= U53 * ae + TINY, z3.Implies(e >= 0, r >= 0), z3.Implies(e <= 0, r <= 0)]
+    if bound is not None and bound < 2 ** 1000:
+        k0 = max(_bits_for(bound), -1021)
+        # |e| <= 2^k0 always: half an ulp of the binade below 2^k0, unconditionally; a few finer binades conditionally
+        cons.append(z3.And(d <= _pow2_q(k0 - 54), -d <= _pow2_q(k0 - 54), r <= _pow2_q(k0), -r <= _pow2_q(k0)))
+        for k in range(k0 - 1, max(k0 - 25, -1021), -1):
+            cons.append(z3.Implies(ae <= _pow2_q(k), z3.And(d <= _pow2_q(k - 54), -d <= _pow2_q(k - 54))))
+        set_bound(interp, r, Fraction(2) ** k0)
+    else:
+        for k in LADDER:
+            cons.append(z3.Implies(ae <= _pow2_q(k), z3.And(d <= _pow2_q(k - 54), -d <= _pow2_q(k - 54))))
+    ctx.assume(z3.And(*cons))
+    return r
+
+
+def value_bound(interp, v):
+    """B >= |v| for a numeric value, from syntactic information (Fraction) or None"""
+    if isinstance(v, SReal):
+        return get_bound(interp, v.t)
+    if isinstance(v, float):
+        return abs(Fraction(v))
+    v = as_int(v)
+    if isinstance(v, int):
+        return Fraction(abs(v))
+    if v.lo is not None and v.hi is not None:
+        return Fraction(max(abs(v.lo), abs(v.hi)))
+    return None
+
+
+def int_operand(interp, v):
+    """real term of an int converted to float (exact up to 2^53, rounded beyond)"""
+    v = as_int(v)
+    if isinstance(v, int):
+        try:
+            return rv(float(v))
+        except OverflowError:
+            interp.throw("OverflowError", "int too large to convert to float")
+    t = z3.ToReal(v.t)
+    lim = 2 ** 53
+    if v.lo is not None and v.hi is not None and -lim <= v.lo and v.hi <= lim:
+        set_bound(interp, t, value_bound(interp, v))
+        return t
+    if interp.ctx.valid(z3.And(v.t >= -lim, v.t <= lim)):
+        set_bound(interp, t, Fraction(lim))
+        return t
+    return rnd(interp, t, value_bound(interp, v))
+
+
+def operand(interp, v):
+    if isinstance(v, SReal):
+        return v.t
+    if isinstance(v, float):
+        return rv(v)
+    if is_intlike(v):
+        return int_operand(interp, v)
+    raise Unsupported(f"float operand {type(v).__name__}")
+
+
+def exact_term(interp, v):
+    """real term of the exact mathematical value (no conversion rounding): for comparisons"""
+    if isinstance(v, SReal):
+        return v.t
+    if isinstance(v, float):
+        return rv(v)
+    v = as_int(v)
+    if isinstance(v, int):
+        return z3.RealVal(v)
+    return z3.ToReal(v.t)
+
+
+def mk_real(t):
+    t = z3.simplify(t)
+    q = numeral_value(t)
+    if q is not None:
+        f = q.numerator / q.denominator
+        if Fraction(f) == q:
+            return f
+    return SReal(t)
+
+
+_PYOPS = {ast.Add: lambda a, b: a + b, ast.Sub: lambda a, b: a - b, ast.Mult: lambda a, b: a * b, ast.Div: lambda a, b: a / b,
+          ast.FloorDiv: lambda a, b: a // b, ast.Mod: lambda a, b: a % b, ast.Pow: lambda a, b: a ** b}
+
+
+def _is_pow2(q):
+    if q is None or q == 0:
+        return False
+    q = abs(q)
+    n, d = q.numerator, q.denominator
+    return (n & (n - 1)) == 0 and (d & (d - 1)) == 0
+
+
+def real_binop(interp, t, a, b):
+    if not (is_num(a) and is_num(b)):
+        interp.throw("TypeError", "unsupported operand type(s) for a float operation")
+    if isinstance(a, (bool, SBool)):
+        a = as_int(a)
+    if isinstance(b, (bool, SBool)):
+        b = as_int(b)
+    if isinstance(a, EnumV):
+        a = as_int(a)
+    if isinstance(b, EnumV):
+        b = as_int(b)
+    if is_concrete_num(a) and is_concrete_num(b):
+        f = _PYOPS.get(t)
+        if f is None:
+            raise Unsupported(f"float operator {t.__name__}")
+        try:
+            r = f(a, b)
         except ZeroDivisionError:
             interp.throw("ZeroDivisionError", "division by zero")
-    raise Unsupported("float arithmetic")
+        except OverflowError:
+            interp.throw("OverflowError", "numerical result out of range")
+        if isinstance(r, complex):
+            raise Unsupported("complex result")
+        return r
+    ctx = interp.ctx
+    if t is ast.Div and is_intlike(a) and is_intlike(b):
+        x, y = exact_term(interp, a), exact_term(interp, b)  # int / int: correctly rounded exact quotient
+    else:
+        x, y = operand(interp, a), operand(interp, b)
+    qx, qy = numeral_value(x), numeral_value(y)
+    bx = value_bound(interp, a) if not isinstance(a, SReal) else get_bound(interp, x)
+    by = value_bound(interp, b) if not isinstance(b, SReal) else get_bound(interp, y)
+    bound = None
+    exact = False
+    if t is ast.Add:
+        e = x + y
+        if bx is not None and by is not None:
+            bound = bx + by
+    elif t is ast.Sub:
+        e = x - y
+        if bx is not None and by is not None:
+            bound = bx + by
+    elif t is ast.Mult:
+        e = x * y
+        exact = _is_pow2(qx) or _is_pow2(qy)
+        if bx is not None and by is not None:
+            bound = bx * by
+    elif t is ast.Div:
+        if qy is not None:
+            if qy == 0:
+                interp.throw("ZeroDivisionError", "division by zero")
+        elif ctx.branch(y == 0):
+            interp.throw("ZeroDivisionError", "division by zero")
+        e = x / y
+        exact = _is_pow2(qy)
+        if bx is not None and qy is not None:
+            bound = bx / abs(qy)
+    else:
+        raise Unsupported(f"float operator {t.__name__} on symbolic operands")
+    if exact:
+        # scaling by a power of two is exact unless the result is subnormal
+        es = z3.simplify(e)
+        if ctx.valid(z3.And(z3.Or(es == 0, _abs(es) >= z3.Q(1, 2 ** 1000)), _abs(es) < z3.RealVal(2 ** 1000))):
+            ctx.trusted.add(T_FLOAT)
+            set_bound(interp, es, bound)
+            return mk_real(es)
+    return mk_real(rnd(interp, e, bound))
 
 
 def real_cmp(interp, sym, a, b):
-    raise Unsupported("float comparison")
+    if not (is_num(a) and is_num(b)):
+        if sym == "==":
+            return False
+        if sym == "!=":
+            return True
+        interp.throw("TypeError", f"'{sym}' not supported between these operands")
+    if isinstance(a, (int, float)) and isinstance(b, (int, float)):
+        return {"<": a < b, "<=": a <= b, ">": a > b, ">=": a >= b, "==": a == b, "!=": a != b}[sym]
+    x, y = exact_term(interp, a), exact_term(interp, b)
+    t = {"<": x < y, "<=": x <= y, ">": x > y, ">=": x >= y, "==": x == y, "!=": x != y}[sym]
+    return ops.mkbool(t)
 
 
 def real_neg(interp, v):
-    raise Unsupported("float arithmetic")
+    if isinstance(v, float):
+        return -v
+    return mk_real(-v.t)
 
 
 def real_abs(interp, v):
-    raise Unsupported("float arithmetic")
+    if isinstance(v, float):
+        return abs(v)
+    return mk_real(_abs(v.t))
+
+
+def _mk_int(t, bound=None):
+    if bound is not None:
+        b = int(bound) + 1
+        return ops.mk(t, -b, b, 0)
+    return ops.mk(t, None, None, 0)
+
+
+def floor(interp, v):
+    if isinstance(v, float):
+        return _math.floor(v)
+    if is_intlike(v):
+        return as_int(v)
+    if isinstance(v, SReal):
+        interp.ctx.trusted.add(T_FLOAT)
+        return _mk_int(z3.ToInt(v.t), get_bound(interp, v.t))
+    interp.throw("TypeError", "must be real number")
+
+
+def ceil(interp, v):
+    if isinstance(v, float):
+        return _math.ceil(v)
+    if is_intlike(v):
+        return as_int(v)
+    if isinstance(v, SReal):
+        interp.ctx.trusted.add(T_FLOAT)
+        return _mk_int(-z3.ToInt(-v.t), get_bound(interp, v.t))
+    interp.throw("TypeError", "must be real number")
 
 
 def trunc(interp, v):
     if isinstance(v, float):
         return int(v)
-    raise Unsupported("float to int")
+    if isinstance(v, SReal):
+        interp.ctx.trusted.add(T_FLOAT)
+        return _mk_int(z3.If(v.t >= 0, z3.ToInt(v.t), -z3.ToInt(-v.t)), get_bound(interp, v.t))
+    return as_int(v)
 
 
 def to_float(interp, v):
-    c = _conc(v)
-    if c is not None:
-        return float(c)
-    raise Unsupported("float()")
+    if isinstance(v, (float, SReal)):
+        return v
+    if isinstance(v, str):
+        try:
+            return float(v)
+        except ValueError:
+            interp.throw("ValueError", "could not convert string to float")
+    if is_intlike(v):
+        return mk_real(int_operand(interp, v))
+    if isinstance(v, Instance):
+        f, _ = interp.class_lookup(v.cls, "__float__")
+        if f is not None:
+            return interp.call(interp.bind(v, f), [], {})
+    interp.throw("TypeError", "float() argument must be a string or a real number")
 
 
 def round_(interp, v, nd):
-    c = _conc(v)
-    if c is not None and (nd is None or isinstance(nd, int)):
-        return round(c) if nd is None else round(c, nd)
-    raise Unsupported("round()")
+    if nd is not None:
+        if isinstance(v, (int, float)) and isinstance(nd, int):
+            return round(v, nd)
+        raise Unsupported("round() with digits on a symbolic value")
+    if isinstance(v, (int, float)) and not isinstance(v, bool):
+        return round(v)
+    if is_intlike(v):
+        return as_int(v)
+    if isinstance(v, SReal):
+        interp.ctx.trusted.add(T_FLOAT)
+        f = z3.ToInt(v.t + z3.Q(1, 2))
+        tie = z3.ToReal(f) == v.t + z3.Q(1, 2)
+        return _mk_int(z3.If(z3.And(tie, f % 2 != 0), f - 1, f))
+    if isinstance(v, Instance):
+        return interp.call(interp.getattr(v, "__round__"), [], {})
+    interp.throw("TypeError", "type doesn't define __round__ method")
 
 
 def float_attr(interp, obj, name):
+    if name == "is_integer":
+        def is_integer(interp_, args, kwargs):
+            if isinstance(obj, float):
+                return obj.is_integer()
+            return ops.mkbool(z3.ToReal(z3.ToInt(obj.t)) == obj.t)
+        return Builtin("float.is_integer", is_integer)
+    if name == "real":
+        return obj
     return NOT_IMPLEMENTED
+
+
+def within(interp, x, p, q, a, b):
+    """spec primitive: |x - p/q| <= a/b exactly (x: int | float; p, q, a, b integers, q > 0, b > 0)"""
+    if not (isinstance(q, int) and isinstance(a, int) and isinstance(b, int) and q > 0 and b > 0):
+        raise Unsupported("within(): q, a, b must be positive literal integers")
+    xt = exact_term(interp, x)
+    pt = exact_term(interp, p)
+    d = xt - pt / z3.RealVal(q)
+    tol = z3.Q(a, b)
+    return ops.mkbool(z3.And(d <= tol, -d <= tol))
+
+
+# ------------------------------------------------------------------------------------------------
+# datetime
+# ------------------------------------------------------------------------------------------------
+_EPOCH = _dt.datetime(1970, 1, 1)
+_ONE_US = _dt.timedelta(microseconds=1)
+MIN_US = (_dt.datetime.min - _EPOCH) // _ONE_US
+MAX_US = (_dt.datetime.max - _EPOCH) // _ONE_US
+TD_MAX_US = (999999999 * 86400 + 86399) * 10 ** 6 + 999999
+TD_MIN_US = -999999999 * 86400 * 10 ** 6
+US_DAY = 86400 * 10 ** 6
+
+
+def _mod(interp):
+    return interp.import_module("datetime")
+
+
+def _is(interp, v, clsname):
+    return isinstance(v, Instance) and v.cls is _mod(interp).ns[clsname]
+
+
+def _range_ok(v, lo, hi):
+    """lo <= v <= hi as bool | SBool, decided from the syntactic bounds where possible"""
+    v = as_int(v)
+    if isinstance(v, SInt) and v.lo is not None and v.hi is not None and lo <= v.lo and v.hi <= hi:
+        return True
+    return ops.b_and(ops.cmp(">=", v, lo), ops.cmp("<=", v, hi))
+
+
+def mk_td(interp, us):
+    """timedelta of `us` microseconds (range-checked)"""
+    us = as_int(us)
+    ok = _range_ok(us, TD_MIN_US, TD_MAX_US)
+    if not interp.truth(ok):
+        interp.throw("OverflowError", "days out of range for timedelta")
+    interp.ctx.trusted.add(T_DT)
+    return Instance(_mod(interp).ns["timedelta"], {"_us": us})
+
+
+def mk_dt(interp, us, tz):
+    us = as_int(us)
+    ok = _range_ok(us, MIN_US, MAX_US)
+    if not interp.truth(ok):
+        interp.throw("OverflowError", "date value out of range")
+    interp.ctx.trusted.add(T_DT)
+    return Instance(_mod(interp).ns["datetime"], {"_us": us, "tzinfo": tz})
+
+
+def float_to_us(interp, x, factor, unit):
+    """microseconds of x units (factor microseconds each), x a float: CPython's split into an exact
+    integral part and a fractional part scaled in binary64 and rounded to the nearest integer"""
+    if isinstance(x, float):
+        try:
+            return _dt.timedelta(**{unit: x}) // _ONE_US
+        except OverflowError as e:
+            interp.throw("OverflowError", str(e))
+        except ValueError as e:
+            interp.throw("ValueError", str(e))
+    ctx = interp.ctx
+    ctx.trusted.add(T_DT)
+    whole = trunc(interp, x)
+    frac = x.t - exact_term(interp, whole)
+    y = rnd(interp, frac * z3.RealVal(factor), Fraction(factor))
+    n = RINT(y)
+    ctx.assume(z3.And(z3.ToReal(n) - y <= z3.Q(1, 2), y - z3.ToReal(n) <= z3.Q(1, 2)))
+    return ops.add(ops.mul(whole, factor), _mk_int(n, get_bound(interp, y)))
+
+
+_TD_FACTORS = (("days", US_DAY), ("seconds", 10 ** 6), ("microseconds", 1), ("milliseconds", 1000), ("minutes", 60 * 10 ** 6),
+               ("hours", 3600 * 10 ** 6), ("weeks", 7 * US_DAY))
+
+
+def make_timedelta_cls(interp):
+    cls = ClassV("timedelta", [interp.builtins["object"]], {}, "datetime")
+
+    def method(name):
+        def deco(fn):
+            b = Builtin("timedelta." + name, lambda interp_, args, kwargs: fn(interp_, *args, **kwargs))
+            b.is_method = True
+            cls.ns[name] = b
+            return fn
+        return deco
+
+    def prop(name):
+        def deco(fn):
+            cls.ns[name] = PropertyV(Builtin("timedelta." + name, lambda interp_, args, kwargs: fn(interp_, *args, **kwargs)), None)
+            return fn
+        return deco
+
+    @method("__init__")
+    def init(interp, self, *args, **kw):
+        vals = {}
+        names = [n for n, _ in _TD_FACTORS]
+        if len(args) > len(names):
+            interp.throw("TypeError", "timedelta() takes at most 7 arguments")
+        for n, v in zip(names, args):
+            vals[n] = v
+        for k, v in kw.items():
+            if k not in names or k in vals:
+                interp.throw("TypeError", f"timedelta(): bad argument {k}")
+            vals[k] = v
+        total = 0
+        n_float = 0
+        for n, f in _TD_FACTORS:
+            v = vals.get(n, 0)
+            if isinstance(v, (float, SReal)):
+                n_float += 1
+                if n_float > 1:
+                    raise Unsupported("timedelta() with more than one float argument")
+                if isinstance(v, float) and (_math.isnan(v) or _math.isinf(v)):
+                    interp.throw("ValueError" if _math.isnan(v) else "OverflowError", "cannot convert float to integer")
+                total = ops.add(total, float_to_us(interp, v, f, n))
+            elif is_intlike(v):
+                total = ops.add(total, ops.mul(as_int(v), f))
+            else:
+                interp.throw("TypeError", f"unsupported type for timedelta {n} component")
+        ok = _range_ok(total, TD_MIN_US, TD_MAX_US)
+        if not interp.truth(ok):
+            interp.throw("OverflowError", "days out of range for timedelta")
+        interp.ctx.trusted.add(T_DT)
+        self.fields["_us"] = total
+        return None
+
+    @prop("days")
+    def days(interp, self):
+        return ops.floordiv_const(self.fields["_us"], US_DAY)
+
+    @prop("seconds")
+    def seconds(interp, self):
+        return ops.floordiv_const(ops.mod_const(self.fields["_us"], US_DAY), 10 ** 6)
+
+    @prop("microseconds")
+    def microseconds(interp, self):
+        return ops.mod_const(self.fields["_us"], 10 ** 6)
+
+    @method("total_seconds")
+    def total_seconds(interp, self):
+        return real_binop(interp, ast.Div, self.fields["_us"], 10 ** 6)
+
+    def other_us(interp, o):
+        return o.fields["_us"] if _is(interp, o, "timedelta") else None
+
+    @method("__add__")
+    def add(interp, self, o):
+        u = other_us(interp, o)
+        if u is None:
+            return NOT_IMPLEMENTED
+        return mk_td(interp, ops.add(self.fields["_us"], u))
+    cls.ns["__radd__"] = cls.ns["__add__"]
+
+    @method("__sub__")
+    def sub(interp, self, o):
+        u = other_us(interp, o)
+        if u is None:
+            return NOT_IMPLEMENTED
+        return mk_td(interp, ops.sub(self.fields["_us"], u))
+
+    @method("__rsub__")
+    def rsub(interp, self, o):
+        u = other_us(interp, o)
+        if u is None:
+            return NOT_IMPLEMENTED
+        return mk_td(interp, ops.sub(u, self.fields["_us"]))
+
+    @method("__neg__")
+    def neg(interp, self):
+        return mk_td(interp, ops.neg(self.fields["_us"]))
+
+    @method("__abs__")
+    def abs_(interp, self):
+        if interp.truth(ops.cmp("<", self.fields["_us"], 0)):
+            return mk_td(interp, ops.neg(self.fields["_us"]))
+        return self
+
+    @method("__mul__")
+    def mul(interp, self, o):
+        if is_intlike(o):
+            return mk_td(interp, ops.mul(self.fields["_us"], as_int(o)))
+        if isinstance(o, (float, SReal)):
+            raise Unsupported("timedelta * float")
+        return NOT_IMPLEMENTED
+    cls.ns["__rmul__"] = cls.ns["__mul__"]
+
+    @method("__floordiv__")
+    def floordiv(interp, self, o):
+        u = other_us(interp, o)
+        if u is not None:
+            if not interp.truth(ops.cmp("!=", u, 0)):
+                interp.throw("ZeroDivisionError", "integer division or modulo by zero")
+            return ops.floordiv(interp, self.fields["_us"], u)
+        if is_intlike(o):
+            if not interp.truth(ops.cmp("!=", o, 0)):
+                interp.throw("ZeroDivisionError", "integer division or modulo by zero")
+            return mk_td(interp, ops.floordiv(interp, self.fields["_us"], as_int(o)))
+        return NOT_IMPLEMENTED
+
+    @method("__bool__")
+    def bool_(interp, self):
+        return ops.cmp("!=", self.fields["_us"], 0)
+
+    @method("__eq__")
+    def eq(interp, self, o):
+        u = other_us(interp, o)
+        if u is None:
+            return NOT_IMPLEMENTED
+        return ops.cmp("==", self.fields["_us"], u)
+
+    @method("__hash__")
+    def hash_(interp, self):
+        return ("hash", "timedelta", self.fields["_us"])
+
+    def order(sym, name):
+        @method(name)
+        def f(interp, self, o):
+            u = other_us(interp, o)
+            if u is None:
+                interp.throw("TypeError", f"'{sym}' not supported between timedelta and this operand")
+            return ops.cmp(sym, self.fields["_us"], u)
+    for sym, name in (("<", "__lt__"), ("<=", "__le__"), (">", "__gt__"), (">=", "__ge__")):
+        order(sym, name)
+    return cls
+
+
+def make_timezone_cls(interp, td_cls):
+    cls = ClassV("timezone", [interp.builtins["object"]], {}, "datetime")
+
+    def method(name):
+        def deco(fn):
+            b = Builtin("timezone." + name, lambda interp_, args, kwargs: fn(interp_, *args, **kwargs))
+            b.is_method = True
+            cls.ns[name] = b
+            return fn
+        return deco
+
+    @method("__init__")
+    def init(interp, self, offset=None, name=None):
+        if not (isinstance(offset, Instance) and offset.cls is td_cls and isinstance(offset.fields["_us"], int) and offset.fields["_us"] == 0):
+            raise Unsupported("time zones other than UTC")
+        self.fields["_off"] = 0
+        return None
+
+    @method("utcoffset")
+    def utcoffset(interp, self, dt=None):
+        return Instance(td_cls, {"_us": 0})
+
+    @method("__eq__")
+    def eq(interp, self, o):
+        if isinstance(o, Instance) and o.cls is cls:
+            return True
+        return NOT_IMPLEMENTED
+
+    @method("__hash__")
+    def hash_(interp, self):
+        return ("hash", "timezone.utc")
+    utc = Instance(cls, {"_off": 0})
+    cls.ns["utc"] = utc
+    return cls, utc
+
+
+def make_datetime_cls(interp, td_cls, tz_cls, utc):
+    cls = ClassV("datetime", [interp.builtins["object"]], {}, "datetime")
+
+    def method(name):
+        def deco(fn):
+            b = Builtin("datetime." + name, lambda interp_, args, kwargs: fn(interp_, *args, **kwargs))
+            b.is_method = True
+            cls.ns[name] = b
+            return fn
+        return deco
+
+    def cmethod(name):
+        def deco(fn):
+            b = Builtin("datetime." + name, lambda interp_, args, kwargs: fn(interp_, *args, **kwargs))
+            cls.ns[name] = ClassMethodV(b)
+            return fn
+        return deco
+
+    def check_tz(interp, tz):
+        if tz is None:
+            return None
+        if isinstance(tz, Instance) and tz.cls is tz_cls:
+            return utc
+        raise Unsupported("tzinfo other than None / timezone.utc")
+
+    @method("__init__")
+    def init(interp, self, year, month=None, day=None, hour=0, minute=0, second=0, microsecond=0, tzinfo=None, **kw):
+        if kw and set(kw) - {"fold"}:
+            interp.throw("TypeError", "datetime(): unexpected keyword argument")
+        parts = (year, month, day, hour, minute, second, microsecond)
+        if not all(isinstance(p, int) and not isinstance(p, bool) for p in parts):
+            if month is None or day is None:
+                interp.throw("TypeError", "function missing required argument")
+            raise Unsupported("datetime() from symbolic calendar fields")
+        tz = check_tz(interp, tzinfo)
+        try:
+            d = _dt.datetime(*parts)
+        except ValueError as e:
+            interp.throw("ValueError", str(e))
+        except OverflowError as e:
+            interp.throw("OverflowError", str(e))
+        interp.ctx.trusted.add(T_DT)
+        self.fields["_us"] = (d - _EPOCH) // _ONE_US
+        self.fields["tzinfo"] = tz
+        return None
+
+    @cmethod("fromtimestamp")
+    def fromtimestamp(interp, c, ts, tz=None):
+        tz = check_tz(interp, tz)
+        if tz is None:
+            raise Unsupported("datetime.fromtimestamp in local time")
+        if isinstance(ts, float) or (isinstance(ts, int) and not isinstance(ts, bool)):
+            try:
+                us = (_dt.datetime.fromtimestamp(ts, tz=_dt.timezone.utc).replace(tzinfo=None) - _EPOCH) // _ONE_US
+            except (OverflowError, OSError) as e:
+                interp.throw("OverflowError", str(e))
+            except ValueError as e:
+                interp.throw("ValueError", str(e))
+            return mk_dt(interp, us, tz)
+        if isinstance(ts, SReal):
+            us = float_to_us(interp, ts, 10 ** 6, "seconds")
+        elif is_intlike(ts):
+            us = ops.mul(as_int(ts), 10 ** 6)
+        else:
+            interp.throw("TypeError", "an integer or float is required")
+        ok = _range_ok(us, MIN_US, MAX_US)
+        if isinstance(ok, bool):
+            in_range = ok
+        else:
+            in_range = interp.ctx.valid(ops.zb(ok))
+        if not in_range:
+            raise Unsupported("datetime.fromtimestamp: year range not established")
+        return mk_dt(interp, us, tz)
+
+    @cmethod("utcfromtimestamp")
+    def utcfromtimestamp(interp, c, ts):
+        raise Unsupported("datetime.utcfromtimestamp")
+
+    @cmethod("now")
+    def now(interp, c, tz=None):
+        raise Unsupported("datetime.now (wall clock)")
+
+    @cmethod("utcnow")
+    def utcnow(interp, c):
+        raise Unsupported("datetime.utcnow (wall clock)")
+
+    def aware(self):
+        return self.fields["tzinfo"] is not None
+
+    @method("timestamp")
+    def timestamp(interp, self):
+        if not aware(self):
+            raise Unsupported("timestamp() of a naive datetime (local time)")
+        return real_binop(interp, ast.Div, self.fields["_us"], 10 ** 6)
+
+    @method("utcoffset")
+    def utcoffset(interp, self):
+        if not aware(self):
+            return None
+        return Instance(td_cls, {"_us": 0})
+
+    @method("astimezone")
+    def astimezone(interp, self, tz=None):
+        tz = check_tz(interp, tz)
+        if not aware(self) or tz is None:
+            raise Unsupported("astimezone involving local time")
+        return self
+
+    @method("replace")
+    def replace(interp, self, **kw):
+        if set(kw) - {"tzinfo"}:
+            raise Unsupported("datetime.replace of calendar fields")
+        return Instance(cls, {"_us": self.fields["_us"], "tzinfo": check_tz(interp, kw.get("tzinfo", self.fields["tzinfo"]))})
+
+    @method("__add__")
+    def add(interp, self, o):
+        if not (isinstance(o, Instance) and o.cls is td_cls):
+            return NOT_IMPLEMENTED
+        return mk_dt(interp, ops.add(self.fields["_us"], o.fields["_us"]), self.fields["tzinfo"])
+    cls.ns["__radd__"] = cls.ns["__add__"]
+
+    @method("__sub__")
+    def sub(interp, self, o):
+        if isinstance(o, Instance) and o.cls is td_cls:
+            return mk_dt(interp, ops.sub(self.fields["_us"], o.fields["_us"]), self.fields["tzinfo"])
+        if isinstance(o, Instance) and o.cls is cls:
+            if aware(self) != aware(o):
+                interp.throw("TypeError", "can't subtract offset-naive and offset-aware datetimes")
+            return mk_td(interp, ops.sub(self.fields["_us"], o.fields["_us"]))
+        return NOT_IMPLEMENTED
+
+    @method("__eq__")
+    def eq(interp, self, o):
+        if not (isinstance(o, Instance) and o.cls is cls):
+            return NOT_IMPLEMENTED
+        if aware(self) != aware(o):
+            return False
+        return ops.cmp("==", self.fields["_us"], o.fields["_us"])
+
+    @method("__hash__")
+    def hash_(interp, self):
+        return ("hash", "datetime", self.fields["_us"], aware(self))
+
+    def order(sym, name):
+        @method(name)
+        def f(interp, self, o):
+            if not (isinstance(o, Instance) and o.cls is cls):
+                interp.throw("TypeError", f"'{sym}' not supported between datetime and this operand")
+            if aware(self) != aware(o):
+                interp.throw("TypeError", "can't compare offset-naive and offset-aware datetimes")
+            return ops.cmp(sym, self.fields["_us"], o.fields["_us"])
+    for sym, name in (("<", "__lt__"), ("<=", "__le__"), (">", "__gt__"), (">=", "__ge__")):
+        order(sym, name)
+
+    def field(name):
+        def get(interp, self):
+            us = self.fields["_us"]
+            if not isinstance(us, int):
+                raise Unsupported(f"calendar field .{name} of a symbolic datetime")
+            return getattr(_EPOCH + _dt.timedelta(microseconds=us), name)
+        cls.ns[name] = PropertyV(Builtin("datetime." + name, lambda interp_, args, kwargs: get(interp_, *args, **kwargs)), None)
+    for n in ("year", "month", "day", "hour", "minute", "second", "microsecond"):
+        field(n)
+    return cls
+
+
+def make_datetime_module(interp):
+    m = ModuleV("datetime", {})
+    m.stub = True
+    td = make_timedelta_cls(interp)
+    tz, utc = make_timezone_cls(interp, td)
+    dt = make_datetime_cls(interp, td, tz, utc)
+    m.ns.update({"timedelta": td, "timezone": tz, "datetime": dt, "UTC": utc})
+    return m
 
 
 def datetime_binop(interp, t, a, b):
@@ -86,6 +876,20 @@ def datetime_cmp(interp, sym, a, b):
 
 
 def stub_module(interp, name):
+    if name == "datetime":
+        return make_datetime_module(interp)
     m = ModuleV(name, {})
     m.stub = True
+    if name == "math":
+        m.ns["floor"] = _b("math.floor")(floor)
+        m.ns["ceil"] = _b("math.ceil")(ceil)
+        m.ns["trunc"] = _b("math.trunc")(trunc)
+        m.ns["fabs"] = _b("math.fabs")(lambda interp_, v: real_abs(interp_, to_float(interp_, v)))
+        m.ns["pi"] = _math.pi
+        m.ns["inf"] = _math.inf
+    if name == "time":
+        def wall(interp_, *a, **k):
+            raise Unsupported("wall clock (time module)")
+        for n in ("time", "time_ns", "monotonic", "perf_counter", "sleep"):
+            m.ns[n] = _b("time." + n)(wall)
     return m
